@@ -1,0 +1,186 @@
+//go:build verif
+
+// Contracts for package sourcewrap, checked by /verif/govc (see /verif/DESIGN.md).  Comment-only file.
+
+package sourcewrap
+
+// A value is "shaped for" a type when it is a valid value of that type or a pointer to it
+// (compose dereferences pointers).
+
+// ---------------------------------------------------------------------------------------------
+// transforming source / decoder: initial values
+// ---------------------------------------------------------------------------------------------
+
+//@ func sourcewrap.(*transformingSourceNoWatch).Value(t, ctx, typ) (v, err)
+//@   props C20
+//@   safety C16
+//@   requires t != nil && typ != nil && t.src != nil
+//@   modifies rec_translateType, rec_reverseTranslate, rec_sourceValue
+//@   ensures C20_translate_error_propagates: rec_translateType_res1[old(rec_translateType_cnt)] != nil ==> err != nil && rec_sourceValue_cnt == old(rec_sourceValue_cnt)
+//@   ensures C20_inner_gets_translated_type: rec_translateType_res1[old(rec_translateType_cnt)] == nil ==>
+//@        rec_sourceValue_cnt == old(rec_sourceValue_cnt) + 1 && rec_sourceValue_arg0[old(rec_sourceValue_cnt)] == t.src
+//@        && as(rec_sourceValue_arg2[old(rec_sourceValue_cnt)], "*dials.Type").t == translated(as(typ, "*dials.Type").t, t.manglers)
+//@   ensures C20_inner_error_propagates: rec_sourceValue_cnt == old(rec_sourceValue_cnt) + 1 && rec_sourceValue_res1[old(rec_sourceValue_cnt)] != nil ==> err != nil
+//@   ensures C20_result_is_reverse_translated: err == nil ==> rec_reverseTranslate_cnt == old(rec_reverseTranslate_cnt) + 1
+//@        && rec_reverseTranslate_arg1[old(rec_reverseTranslate_cnt)] == rec_sourceValue_res0[old(rec_sourceValue_cnt)]
+//@        && v == rec_reverseTranslate_res0[old(rec_reverseTranslate_cnt)] && rec_reverseTranslate_res1[old(rec_reverseTranslate_cnt)] == nil
+//@        && valid(v) && vtype(v) == as(typ, "*dials.Type").t
+//@   ensures C20_reverse_error_propagates: rec_reverseTranslate_cnt == old(rec_reverseTranslate_cnt) + 1
+//@        && rec_reverseTranslate_res1[old(rec_reverseTranslate_cnt)] != nil ==> err != nil
+
+//@ func sourcewrap.(*transformingDecoder).Decode(t, reader, typ) (v, err)
+//@   props C20
+//@   safety C16
+//@   requires t != nil && typ != nil && t.inner != nil
+//@   modifies rec_translateType, rec_reverseTranslate, rec_decode
+//@   ensures C20_translate_error_propagates: rec_translateType_res1[old(rec_translateType_cnt)] != nil ==> err != nil && rec_decode_cnt == old(rec_decode_cnt)
+//@   ensures C20_inner_gets_translated_type: rec_translateType_res1[old(rec_translateType_cnt)] == nil ==>
+//@        rec_decode_cnt == old(rec_decode_cnt) + 1 && rec_decode_arg0[old(rec_decode_cnt)] == t.inner
+//@        && as(rec_decode_arg2[old(rec_decode_cnt)], "*dials.Type").t == translated(as(typ, "*dials.Type").t, t.manglers)
+//@   ensures C20_inner_error_propagates: rec_decode_cnt == old(rec_decode_cnt) + 1 && rec_decode_res1[old(rec_decode_cnt)] != nil ==> err != nil
+//@   ensures C20_result_is_reverse_translated: err == nil ==> rec_reverseTranslate_cnt == old(rec_reverseTranslate_cnt) + 1
+//@        && rec_reverseTranslate_arg1[old(rec_reverseTranslate_cnt)] == rec_decode_res0[old(rec_decode_cnt)]
+//@        && v == rec_reverseTranslate_res0[old(rec_reverseTranslate_cnt)] && valid(v) && vtype(v) == as(typ, "*dials.Type").t
+//@   ensures C20_reverse_error_propagates: rec_reverseTranslate_cnt == old(rec_reverseTranslate_cnt) + 1
+//@        && rec_reverseTranslate_res1[old(rec_reverseTranslate_cnt)] != nil ==> err != nil
+
+// ---------------------------------------------------------------------------------------------
+// transforming source: later updates.  The WatchArgs handed to the inner watcher must reverse-translate
+// every reported value before it reaches the outer WatchArgs, whatever code the method set resolves to
+// (promoted wrappers included).
+// ---------------------------------------------------------------------------------------------
+
+//@ func sourcewrap.(*transformingSourceWithWatch).Watch(t, ctx, typ, args) (err)
+//@   props C20
+//@   safety C16
+//@   requires t != nil && typ != nil && t.src != nil
+//@   modifies rec_translateType, rec_watch, sourcewrap.wrappedWatchArgs.WatchArgs, sourcewrap.wrappedWatchArgs.tfm
+//@   ensures C20_translate_error_propagates: rec_translateType_res1[old(rec_translateType_cnt)] != nil ==> err != nil && rec_watch_cnt == old(rec_watch_cnt)
+//@   ensures C20_inner_watch_gets_translated_type_and_wrapped_args: rec_translateType_res1[old(rec_translateType_cnt)] == nil ==>
+//@        rec_watch_cnt == old(rec_watch_cnt) + 1 && rec_watch_arg0[old(rec_watch_cnt)] == t.src
+//@        && as(rec_watch_arg2[old(rec_watch_cnt)], "*dials.Type").t == translated(as(typ, "*dials.Type").t, t.transformingSourceNoWatch.manglers)
+//@        && isType(rec_watch_arg3[old(rec_watch_cnt)], "*sourcewrap.wrappedWatchArgs")
+//@        && as(pay(rec_watch_arg3[old(rec_watch_cnt)]), "*wrappedWatchArgs").WatchArgs == args
+//@        && as(pay(rec_watch_arg3[old(rec_watch_cnt)]), "*wrappedWatchArgs").tfm != nil
+//@        && as(pay(rec_watch_arg3[old(rec_watch_cnt)]), "*wrappedWatchArgs").tfm.t == as(typ, "*dials.Type").t
+//@   ensures C20_inner_watch_error_propagates: rec_watch_cnt == old(rec_watch_cnt) + 1 && rec_watch_res0[old(rec_watch_cnt)] != nil ==> err != nil
+
+//@ func sourcewrap.(*wrappedWatchArgs).ReportNewValue(w, ctx, val) (err)
+//@   props C20
+//@   safety C16
+//@   requires w != nil && w.WatchArgs != nil && w.tfm != nil
+//@   modifies rec_reverseTranslate, rec_waReport
+//@   ensures C20_update_is_reverse_translated: rec_reverseTranslate_cnt == old(rec_reverseTranslate_cnt) + 1
+//@        && rec_reverseTranslate_arg0[old(rec_reverseTranslate_cnt)] == w.tfm && rec_reverseTranslate_arg1[old(rec_reverseTranslate_cnt)] == val
+//@   ensures C20_translated_update_is_forwarded: rec_reverseTranslate_res1[old(rec_reverseTranslate_cnt)] == nil ==>
+//@        rec_waReport_cnt == old(rec_waReport_cnt) + 1 && rec_waReport_arg0[old(rec_waReport_cnt)] == w.WatchArgs
+//@        && rec_waReport_arg2[old(rec_waReport_cnt)] == rec_reverseTranslate_res0[old(rec_reverseTranslate_cnt)]
+//@        && err == rec_waReport_res0[old(rec_waReport_cnt)]
+//@   ensures C20_untranslatable_update_is_an_error: rec_reverseTranslate_res1[old(rec_reverseTranslate_cnt)] != nil ==>
+//@        err != nil && rec_waReport_cnt == old(rec_waReport_cnt)
+
+//@ func sourcewrap.(*wrappedWatchArgs).BlockingReportNewValue(w, ctx, val) (err)
+//@   props C20
+//@   safety C16
+//@   requires w != nil && w.WatchArgs != nil && w.tfm != nil
+//@   modifies rec_reverseTranslate, rec_waBlockingReport
+//@   ensures C20_update_is_reverse_translated: rec_reverseTranslate_cnt == old(rec_reverseTranslate_cnt) + 1
+//@        && rec_reverseTranslate_arg0[old(rec_reverseTranslate_cnt)] == w.tfm && rec_reverseTranslate_arg1[old(rec_reverseTranslate_cnt)] == val
+//@   ensures C20_translated_update_is_forwarded: rec_reverseTranslate_res1[old(rec_reverseTranslate_cnt)] == nil ==>
+//@        rec_waBlockingReport_cnt == old(rec_waBlockingReport_cnt) + 1 && rec_waBlockingReport_arg0[old(rec_waBlockingReport_cnt)] == w.WatchArgs
+//@        && rec_waBlockingReport_arg2[old(rec_waBlockingReport_cnt)] == rec_reverseTranslate_res0[old(rec_reverseTranslate_cnt)]
+//@        && err == rec_waBlockingReport_res0[old(rec_waBlockingReport_cnt)]
+//@   ensures C20_untranslatable_update_is_an_error: rec_reverseTranslate_res1[old(rec_reverseTranslate_cnt)] != nil ==>
+//@        err != nil && rec_waBlockingReport_cnt == old(rec_waBlockingReport_cnt)
+
+//@ func sourcewrap.(*wrappedWatchArgs).Done(w, ctx)
+//@   props C20
+//@   safety C16
+//@   requires w != nil && w.WatchArgs != nil
+//@   modifies rec_waDone
+//@   ensures C20_done_passes_through: rec_waDone_cnt == old(rec_waDone_cnt) + 1 && rec_waDone_arg0[old(rec_waDone_cnt)] == w.WatchArgs
+
+//@ func sourcewrap.(*wrappedWatchArgs).ReportError(w, ctx, e) (err)
+//@   props C20
+//@   safety C16
+//@   requires w != nil && w.WatchArgs != nil
+//@   modifies rec_waReportError
+//@   ensures C20_error_passes_through: rec_waReportError_cnt == old(rec_waReportError_cnt) + 1 && rec_waReportError_arg0[old(rec_waReportError_cnt)] == w.WatchArgs
+//@        && rec_waReportError_arg2[old(rec_waReportError_cnt)] == e && err == rec_waReportError_res0[old(rec_waReportError_cnt)]
+
+//@ func sourcewrap.NewTransformingSource(src, manglers) (r)
+//@   props C20
+//@   safety C16
+//@   ensures C20_watcher_iff_inner_is_watcher: isType(r, "*sourcewrap.transformingSourceWithWatch") <==> (src != nil && impl(src, "dials.Watcher"))
+//@   ensures C20_wraps_the_source: isType(r, "*sourcewrap.transformingSourceNoWatch") ==>
+//@        as(pay(r), "*transformingSourceNoWatch").src == src && as(pay(r), "*transformingSourceNoWatch").manglers == manglers
+//@   ensures isType(r, "*sourcewrap.transformingSourceWithWatch") || isType(r, "*sourcewrap.transformingSourceNoWatch")
+
+// ---------------------------------------------------------------------------------------------
+// Blank: an object under its mutex (method bodies are atomic w.r.t. each other)
+// ---------------------------------------------------------------------------------------------
+
+//@ macro isWatcher(s Iface) bool = s != nil && impl(s, "dials.Watcher")
+
+//@ func sourcewrap.(*Blank).getInner(b) (r)
+//@   props C20
+//@   safety C16
+//@   requires b != nil
+//@   ensures r == b.inner
+
+//@ func sourcewrap.(*Blank).Value(b, ctx, t) (v, err)
+//@   props C20
+//@   safety C16
+//@   requires b != nil && t != nil && as(t, "*dials.Type").t != nil
+//@   modifies rec_sourceValue
+//@   ensures C20_blank_is_empty_until_set: b.inner == nil ==> err == nil && valid(v) && vtype(v) == ptrTo(as(t, "*dials.Type").t)
+//@        && rec_sourceValue_cnt == old(rec_sourceValue_cnt)
+//@   ensures C20_blank_delegates_to_inner: b.inner != nil ==> rec_sourceValue_cnt == old(rec_sourceValue_cnt) + 1
+//@        && rec_sourceValue_arg0[old(rec_sourceValue_cnt)] == b.inner && rec_sourceValue_arg2[old(rec_sourceValue_cnt)] == t
+//@        && v == rec_sourceValue_res0[old(rec_sourceValue_cnt)] && err == rec_sourceValue_res1[old(rec_sourceValue_cnt)]
+
+//@ func sourcewrap.(*Blank).Watch(b, ctx, t, wa) (err)
+//@   props C20
+//@   safety C16
+//@   requires b != nil
+//@   modifies sourcewrap.Blank.t@b, sourcewrap.Blank.wa@b, sourcewrap.Blank.watchCtx@b
+//@   ensures C20_blank_second_watch_refused: old(b.t) != nil ==> err != nil && b.t == old(b.t) && b.wa == old(b.wa) && b.watchCtx == old(b.watchCtx)
+//@   ensures C20_blank_records_watch_args: old(b.t) == nil ==> err == nil && b.t == t && b.wa == wa && b.watchCtx == ctx
+
+//@ func sourcewrap.(*Blank).SetSource(b, ctx, s) (err)
+//@   props C20 C07
+//@   safety C16
+//@   requires b != nil
+//@   requires api_precondition_blank_is_watched: b.t != nil && b.wa != nil
+//@   modifies sourcewrap.Blank.inner@b, rec_sourceValue, rec_waBlockingReport, rec_watch
+//@   ensures C20_nil_source_refused: s == nil ==> err != nil && b.inner == old(b.inner)
+//@        && rec_sourceValue_cnt == old(rec_sourceValue_cnt) && rec_waBlockingReport_cnt == old(rec_waBlockingReport_cnt)
+//@   ensures C20_watcher_is_never_replaced: isWatcher(old(b.inner)) ==> err != nil && b.inner == old(b.inner)
+//@        && rec_sourceValue_cnt == old(rec_sourceValue_cnt) && rec_waBlockingReport_cnt == old(rec_waBlockingReport_cnt) && rec_watch_cnt == old(rec_watch_cnt)
+//@   ensures C07_value_is_read_first: s != nil && !isWatcher(old(b.inner)) ==> rec_sourceValue_cnt == old(rec_sourceValue_cnt) + 1
+//@        && rec_sourceValue_arg0[old(rec_sourceValue_cnt)] == s && rec_sourceValue_arg2[old(rec_sourceValue_cnt)] == b.t
+//@   ensures C07_failing_value_changes_nothing: s != nil && !isWatcher(old(b.inner)) && rec_sourceValue_res1[old(rec_sourceValue_cnt)] != nil ==>
+//@        err != nil && b.inner == old(b.inner) && rec_waBlockingReport_cnt == old(rec_waBlockingReport_cnt) && rec_watch_cnt == old(rec_watch_cnt)
+//@   ensures C20_most_recent_source_installed_and_reported: s != nil && !isWatcher(old(b.inner)) && rec_sourceValue_res1[old(rec_sourceValue_cnt)] == nil ==>
+//@        b.inner == s && rec_waBlockingReport_cnt == old(rec_waBlockingReport_cnt) + 1
+//@        && rec_waBlockingReport_arg0[old(rec_waBlockingReport_cnt)] == b.wa
+//@        && rec_waBlockingReport_arg2[old(rec_waBlockingReport_cnt)] == rec_sourceValue_res0[old(rec_sourceValue_cnt)]
+//@   ensures C07_failed_report_is_returned: rec_waBlockingReport_cnt == old(rec_waBlockingReport_cnt) + 1
+//@        && rec_waBlockingReport_res0[old(rec_waBlockingReport_cnt)] != nil ==> err != nil && rec_watch_cnt == old(rec_watch_cnt)
+//@   ensures C07_watch_only_after_successful_report: rec_watch_cnt == old(rec_watch_cnt) + 1 ==>
+//@        rec_waBlockingReport_cnt == old(rec_waBlockingReport_cnt) + 1 && rec_waBlockingReport_res0[old(rec_waBlockingReport_cnt)] == nil
+//@        && isWatcher(s) && rec_watch_arg0[old(rec_watch_cnt)] == s && rec_watch_arg1[old(rec_watch_cnt)] == b.watchCtx
+//@        && rec_watch_arg2[old(rec_watch_cnt)] == b.t && rec_watch_arg3[old(rec_watch_cnt)] == b.wa
+//@   ensures C20_new_watcher_is_watched: rec_waBlockingReport_cnt == old(rec_waBlockingReport_cnt) + 1
+//@        && rec_waBlockingReport_res0[old(rec_waBlockingReport_cnt)] == nil && isWatcher(s) ==> rec_watch_cnt == old(rec_watch_cnt) + 1
+//@   ensures C20_watch_error_is_returned: rec_watch_cnt == old(rec_watch_cnt) + 1 && rec_watch_res0[old(rec_watch_cnt)] != nil ==> err != nil
+//@   ensures C07_nil_only_when_everything_succeeded: err == nil ==> b.inner == s && rec_waBlockingReport_cnt == old(rec_waBlockingReport_cnt) + 1
+//@        && rec_waBlockingReport_res0[old(rec_waBlockingReport_cnt)] == nil
+
+//@ func sourcewrap.(*Blank).Done(b, ctx)
+//@   props C20
+//@   safety C16
+//@   requires b != nil
+//@   modifies rec_waDone
+//@   ensures C20_done_forwarded_only_while_owner: rec_waDone_cnt == old(rec_waDone_cnt) + b2i(!isWatcher(b.inner) && b.wa != nil)
+//@   ensures rec_waDone_cnt == old(rec_waDone_cnt) + 1 ==> rec_waDone_arg0[old(rec_waDone_cnt)] == b.wa
